@@ -5,8 +5,12 @@ V = os.path.dirname(os.path.abspath(__file__))
 BASE = json.load(open("/root/.vp/BASELINE.json"))["cmd"] if os.path.exists("/root/.vp/BASELINE.json") else ""
 props = [json.loads(l) for l in open(os.path.join(V, "properties.jsonl"))]
 checks, na = [], []
+READY = set(open(os.path.join(V, "ready.txt")).read().split()) if os.path.exists(os.path.join(V, "ready.txt")) else None
 for p in props:
     pid = p["id"]
+    if READY is not None and pid not in READY:
+        na.append({"property_id": pid, "reason": "check under construction at this commit (see design/ and DESIGN.md section 6); not claimed yet"})
+        continue
     f = os.path.join(V, "checks", pid.lower() + ".py")
     spec = None
     if os.path.exists(f):
